@@ -147,6 +147,7 @@ def run(tier):
             else:
                 rf.render_events(PROP, f, lang, batch, real, add, base)
     try:
+        n_chains = [0]
         for lang in ('en', 'ja'):
             rf.set_lang(lang)
             tokfn = trees.en_token if lang == 'en' else trees.ja_token
@@ -160,6 +161,12 @@ def run(tier):
                 labels_seen[lang].add(r.op_string)
                 t = trees.unary(enc.enc_cat(r.cat), trees.leaf(enc.enc_cat(x), tokfn(rng, 'w')), r.op_string, r.op_symbol)
                 render_all(lang, [[t]], what='unary %s %s -> %s' % key)
+                # the search applies unary rules to the result of a unary rule as well: every chain the shipped table allows
+                _, fu = trees._grammar(lang)
+                for r2 in fu(r.cat):
+                    t2 = trees.unary(enc.enc_cat(r2.cat), t, r2.op_string, r2.op_symbol)
+                    render_all(lang, [[t2]], what='unary chain %s -> %s -> %s' % (key[1], key[2], r2.cat))
+                    n_chains[0] += 1
             # random grammar-licensed derivations
             for _ in range(25 if tier == 'quick' else 400):
                 b = trees.make_batch(rng, lang, awkward=0.3, licensed_p=1.0, exclude='/{}()' if lang == 'ja' else '()')
